@@ -649,7 +649,17 @@ impl FileSystem for Vfs {
         // Use the per-mount mapping identified by the fs_idx encoded in
         // nodeid, falling back to the global mapping for pseudo-fs
         // operations (fs_idx == 0).
-        self.remap_ctx_ids(ctx, self.get_effective_id_mapping(nodeid.fs_idx()))
+        // nodeid 1 stands for the mount at "/" when there is one: requests on it are served by that
+        // mount (get_real_rootfs), so its mapping applies.
+        let fs_idx = if nodeid.is_pseudo_fs() && nodeid.ino() == ROOT_ID {
+            match self.mountpoints.load().get(&ROOT_ID) {
+                Some(mnt) => mnt.fs_idx,
+                None => nodeid.fs_idx(),
+            }
+        } else {
+            nodeid.fs_idx()
+        };
+        self.remap_ctx_ids(ctx, self.get_effective_id_mapping(fs_idx))
     }
 
     #[cfg(any(feature = "vhost-user-fs", feature = "virtiofs"))]
